@@ -103,6 +103,8 @@ ConvInvs(ev) ==
         I("Reproduces:bino", ~ev.warnMu => Le(rChi, g)),
         I("Reproduces:sneutrino", Le(Mul(TenPow(9), rSnu), o["pMSvmL"])),
         I("FinalReproduces:smuon", ~ev.warnMe2 => Le(rSmu, g)),
+        \* K15 (known) is a miss of up to 0.1 GeV after the last Yukawa update; anything larger is not K15
+        I("FinalReproducesLoose:smuon", ~ev.warnMe2 => Le(rSmu, One)),
         I("RoundTrip:gauginos", (quiet /\ gauginosApart) =>
              /\ Le(Abs(Sub(o["Mu"], o["Mu0"])), Mul(OfInt(50), g)) /\ Le(Abs(Sub(o["M1"], o["M10"])), Mul(OfInt(50), g))
              /\ Le(Abs(Sub(o["M2"], o["M20"])), Mul(OfInt(50), g))),
